@@ -316,15 +316,14 @@ pub fn run_scenario(
                 return (out, built);
             },
         };
-        // pairwise distinct non-zero blindings
+        // pairwise distinct blindings; members of one scenario that carry the same non-zero `bseed` get the same ones
+        // (and the same external RNG stream), so that pairs of runs differing in exactly one input can be formed (C14)
+        let bseed = mb["bseed"].as_u64().unwrap_or(0);
+        let bkey = if bseed == 0 { 1000 + mi as u64 } else { bseed };
         let blinds: Vec<Vec<Scalar>> = (0..m)
-            .map(|_| {
+            .map(|j| {
                 (0..t)
-                    .map(|_| {
-                        let mut b = [0u8; 64];
-                        rng.fill_bytes(&mut b);
-                        Scalar::from_bytes_mod_order_wide(&b)
-                    })
+                    .map(|k| hash_scalar(&[b"bppv-blinding", &ctx.run_seed.to_le_bytes(), &sidx.to_le_bytes(), &bkey.to_le_bytes(), &(j as u64).to_le_bytes(), &(k as u64).to_le_bytes()]))
                     .collect()
             })
             .collect();
@@ -365,7 +364,7 @@ pub fn run_scenario(
         let proof = match witness {
             Err(_) => None, // the caller cannot even form a witness: no proof
             Ok(w) => {
-                let mut ext = RngModel::new(mb["rng"].as_str().unwrap_or("chacha"), ctx.run_seed ^ sidx ^ ((mi as u64) << 32));
+                let mut ext = RngModel::new(mb["rng"].as_str().unwrap_or("chacha"), ctx.run_seed ^ sidx.wrapping_mul(0x100000001b3) ^ (bkey << 32));
                 if rec.is_some() {
                     merlin::trace::start();
                     grec_start();
@@ -387,7 +386,10 @@ pub fn run_scenario(
                                 merlin: mev,
                                 group: gev,
                                 info: json!({"member": mi, "n": n, "t": t, "m": m, "cap": cap, "label": label,
-                                    "seeded": seed.is_some(), "bytes": p.to_bytes()}),
+                                    "seeded": seed.is_some(), "bytes": p.to_bytes(),
+                                    "commits": stmt.commitments_compressed.iter().map(|c| c.as_fixed_bytes().to_vec()).collect::<Vec<_>>(),
+                                    "H": stmt.generators.h_base_compressed().as_fixed_bytes().to_vec(),
+                                    "G": stmt.generators.g_bases_compressed().iter().map(|c| c.as_fixed_bytes().to_vec()).collect::<Vec<_>>()}),
                             });
                         }
                         Some(p)
@@ -409,6 +411,8 @@ pub fn run_scenario(
 
     // ---- encode, alter, decode ------------------------------------------------------------------
     let viabytes = sc["viabytes"].as_bool().unwrap_or(false);
+    let pair = sc["pair"].as_bool().unwrap_or(false);
+    let orig_proofs: Vec<RangeProof<P>> = if pair { proofs.iter().map(|p| p.clone().unwrap()).collect() } else { vec![] };
     let mut vproofs: Vec<RangeProof<P>> = Vec::new();
     for (mi, mb) in members.iter().enumerate() {
         let p = proofs[mi].take().unwrap();
@@ -477,6 +481,30 @@ pub fn run_scenario(
         stmts.push(st);
         labels.push(v["label"].as_u64().unwrap());
         blind_ref.push(b.blinds[0].clone());
+    }
+
+    // ---- the unperturbed baseline call of a pair (C04): honest statements, unaltered proofs ----------
+    if pair {
+        let mut bst = Vec::new();
+        for b in &built {
+            let params = ctx.params(b.n, b.cap, b.t, 0, 0).unwrap();
+            bst.push(RangeStatement::init(params, b.commitments.clone(), b.proms.clone(), b.seed).unwrap());
+        }
+        if rec.is_some() {
+            merlin::trace::start();
+            grec_start();
+        }
+        let mut btr: Vec<Transcript> = built.iter().map(|b| Transcript::new(label_bytes(b.label))).collect();
+        let r = catch_unwind(AssertUnwindSafe(|| RangeProof::<P>::verify_batch(&mut btr, &bst, &orig_proofs, VerifyAction::VerifyOnly)));
+        let (mev, gev) = if rec.is_some() { (merlin::trace::stop(), grec_stop()) } else { (vec![], Default::default()) };
+        let bres = match r {
+            Ok(Ok(_)) => "ok",
+            Ok(Err(_)) => "err",
+            Err(_) => "panic",
+        };
+        if let Some(r) = rec.as_deref_mut() {
+            r.push(CallRec { kind: "verify", merlin: mev, group: gev, info: call_info(&bst, &orig_proofs, &built.iter().map(|b| b.label).collect::<Vec<_>>(), "VerifyOnly", bres, btr.len(), "base", sc) });
+        }
     }
 
     // ---- expansion to the real chunk size --------------------------------------------------------
@@ -595,22 +623,28 @@ pub fn run_scenario(
             kind: "verify",
             merlin: mev,
             group: gev,
-            info: json!({"mode": sc["mode"], "result": out.verify, "nstmts": stmts.len(), "nproofs": vproofs.len(), "ntrans": transcripts.len(),
-                "members": (0..stmts.len().min(vproofs.len())).map(|x| json!({
-                    "n": stmts[x].generators.bit_length(), "t": stmts[x].generators.extension_degree() as usize,
-                    "m": stmts[x].commitments.len(), "cap": stmts[x].generators.max_aggregation_factor(),
-                    "proms": stmts[x].minimum_value_promises.iter().map(|p| p.map(|v| v.to_string())).collect::<Vec<_>>(),
-                    "label": labels.get(x), "bytes": vproofs[x].to_bytes(),
-                    "commits": stmts[x].commitments_compressed.iter().map(|c| c.as_fixed_bytes().to_vec()).collect::<Vec<_>>(),
-                    "H": stmts[x].generators.h_base_compressed().as_fixed_bytes().to_vec(),
-                    "G": stmts[x].generators.g_bases_compressed().iter().map(|c| c.as_fixed_bytes().to_vec()).collect::<Vec<_>>(),
-                    "seeded": stmts[x].seed_nonce.is_some(),
-                })).collect::<Vec<_>>()}),
+            info: call_info(&stmts, &vproofs, &labels, sc["mode"].as_str().unwrap(), &out.verify, transcripts.len(), if pair { "pert" } else { "single" }, sc),
         });
     }
     out.nres = if out.verify == "ok" { out.nres } else { 0 };
     let _ = ExtensionDegree::try_from(1usize);
     (out, built)
+}
+
+/// what the trace emitter needs to know about one verify_batch call
+pub fn call_info(stmts: &[RangeStatement<P>], vproofs: &[RangeProof<P>], labels: &[u64], mode: &str, result: &str, ntrans: usize, pair: &str, sc: &Value) -> Value {
+    json!({"mode": mode, "result": result, "nstmts": stmts.len(), "nproofs": vproofs.len(), "ntrans": ntrans, "pair": pair,
+        "first": sc["first"].as_u64().unwrap_or(0), "wdiff": sc["wdiff"].as_bool().unwrap_or(false),
+        "members": (0..stmts.len().min(vproofs.len())).map(|x| json!({
+            "n": stmts[x].generators.bit_length(), "t": stmts[x].generators.extension_degree() as usize,
+            "m": stmts[x].commitments.len(), "cap": stmts[x].generators.max_aggregation_factor(),
+            "proms": stmts[x].minimum_value_promises.iter().map(|p| p.map(|v| v.to_string())).collect::<Vec<_>>(),
+            "label": labels.get(x), "bytes": vproofs[x].to_bytes(),
+            "commits": stmts[x].commitments_compressed.iter().map(|c| c.as_fixed_bytes().to_vec()).collect::<Vec<_>>(),
+            "H": stmts[x].generators.h_base_compressed().as_fixed_bytes().to_vec(),
+            "G": stmts[x].generators.g_bases_compressed().iter().map(|c| c.as_fixed_bytes().to_vec()).collect::<Vec<_>>(),
+            "seeded": stmts[x].seed_nonce.is_some(),
+        })).collect::<Vec<_>>()})
 }
 
 /// Compare an observed outcome with the specification's prediction. None = agrees.
